@@ -98,6 +98,16 @@ def key_of(I, k):
             I.path.add_pool(kid)
             k._keyid = kid
         return kid
+    if isinstance(k, tuple) and k:
+        # a tuple key: an injective pairing of its components (uninterpreted constructor with projections)
+        comps = [key_of(I, x) if isinstance(x, (SObj, tuple)) else to_z3(x) for x in k]
+        if all(z3.is_int(c) for c in comps):
+            n = len(comps)
+            mk = z3.Function(f"tuple{n}", *([S.IntS] * n + [S.IntS]))
+            t = mk(*comps)
+            for i, c in enumerate(comps):
+                I.path.assume(z3.Function(f"tuple{n}_{i}", S.IntS, S.IntS)(t) == c)
+            return t
     return to_z3(k)
 
 
@@ -211,7 +221,11 @@ def seq_at(I, v, i):
     if isinstance(v, SBytes):
         return _byte_val(I, v, simp(v.e[iz]))
     if isinstance(v, SSeq):
-        return wrap(v.ety, v.at(iz))
+        e = v.at(iz)
+        if v.ety.kind == "ref" and not getattr(v.ety, "nullable", False):
+            # elements of a list of (non-None) heap references are allocated objects
+            I.path.assume(z3.And(e >= 1, e < heap_limit(I)))
+        return wrap(v.ety, e)
     if isinstance(v, SRange):
         return SInt(simp(to_z3(v.start) + iz * v.step))
     if isinstance(v, SItems):
@@ -309,7 +323,7 @@ def get_item(I, v, idx):
     itp = _interp()
     if type(v).__name__ == "_ArrView":
         return SInt(z3.Select(v.arr, to_z3(idx)))
-    if isinstance(v, SObj):
+    if isinstance(v, (SObj, S.SRef)):
         f = I.class_lookup(v.cls, "__getitem__")
         if f is None:
             I.raise_py(TypeError, "not subscriptable")
@@ -391,7 +405,9 @@ def set_item(I, v, idx, x):
         if v.size is not None:
             v.size = simp(z3.If(z3.Select(v.has, kz), v.size, v.size + 1))
         v.has = z3.Store(v.has, kz, z3.BoolVal(True))
-        if not (x is None and v.vty.kind == "const"):
+        if v.vty.kind == "opaque":
+            v.val = z3.Store(v.val, kz, I.path.fresh_int("stored"))
+        elif not (x is None and v.vty.kind == "const"):
             v.val = z3.Store(v.val, kz, to_z3(x))
         drop_key_order(v)
         return
@@ -465,6 +481,8 @@ def list_extend(I, lst: SSeq, other):
 
 
 def list_append(I, lst: SSeq, x):
+    if lst.ety.kind == "opaque":
+        x = S.SInt(I.path.fresh_int("logged"))
     lst.arr = z3.Store(lst.arr, simp(to_z3(lst.off) + to_z3(lst.n)), to_z3(x))
     if lst.mem is not None:
         xz = to_z3(x)
@@ -959,7 +977,8 @@ def map_value(I, m, kz):
     """the value stored under key kz; a stored heap reference is a valid (non-None) object"""
     e = z3.Select(m.val, kz)
     if m.vty.kind == "ref":
-        rng = z3.And(e >= 1, e < heap_limit(I))
+        lim = getattr(m, "lim", None)
+        rng = z3.And(e >= 1, e < (lim if lim is not None else heap_limit(I)))
         I.path.assume(z3.Implies(z3.Select(m.has, kz), rng) if hasattr(m, "has") else rng)
         r = wrap(m.vty, e)
         return S.SRef(r.cls, r.id, getattr(m, "heap", None))
